@@ -14,6 +14,12 @@ CHECKS = {
  "C12": ("exploration",
          "TLC enumerates all descriptor lists up to the bound with the verdict of the TLA+ relation NameMatch for every event name up to the bound; the table is replayed through uscxml::nameMatch and the matcher shipped in test-gen-c.cpp. Exhaustive in the bound, seeded random beyond.",
          "5 C12", "TLC-generated oracle table (MC_NameMatch) replayed through the implementation"),
+ "C13": ("model_checking",
+         "The raw InterpreterMonitor callback stream of every recorded step() of both engines (all campaign cases incl. error, cancel and top-level-final runs) is checked by TLC against a chart-independent specification of the callback protocol (bracket nesting, phase order exits<=transitions<=entries, stable notice once per macrostep) and cross-checked against the logger, the queue wrappers and getConfiguration().",
+         "5 C13", "TLC trace validation of raw callback streams against the Monitor protocol specification (Trace_Monitor)"),
+ "C17": ("exploration",
+         "TLC enumerates expression ASTs up to depth 2 with the value the TLA+ evaluator PromelaExpr!Eval defines (C integer semantics) and renders each with minimal and full parentheses; every vector is evaluated by evalAsData/evalAsBool of a live promela-datamodel interpreter in forked children (a crash is an outcome).",
+         "5 C17", "TLC-generated oracle table (MC_PromelaExpr) replayed through the implementation"),
 }
 NOT_YET = {
  "C04": "check not built yet in this round (generated C harness pending)",
